@@ -27,7 +27,8 @@ CLAIMED = {
                 technique='Lean 4 proof (refinement to a reference leaf order) + correspondence', ref='6 C02'),
     'C03': dict(text='Proved: C03_flatten_with_path_agrees (leaves, node array, namespace and error of flatten vs flatten_with_path for well-behaved '
                      'flatten functions), C03_iter_leaves (whenever flatten succeeds the lazy iterator yields exactly its leaves in order; agenda '
-                     'machine vs recursion), C03_counts, C03_is_leaf_flatten / C03_flatten_is_leaf, C03_error_parity_partial; the full '
+                     'machine vs recursion), C03_paths_agree (the paths computed on the fly by flatten_with_path equal treespec.paths() of the returned '
+                     'treespec - both equal the tree-level listing pathsT of the shape; no predicate), C03_counts, C03_is_leaf_flatten / C03_flatten_is_leaf, C03_error_parity_partial; the full '
                      'error-parity statement is refuted by C03_error_parity_full_false (known finding). Error parity of tree_iter and the '
                      'reductions: correspondence + oracle.' + PARTIAL,
                 technique='Lean 4 proof (simulation between two traversals) + correspondence', ref='6 C03'),
